@@ -30,6 +30,8 @@ struct BaseLedger {
   int errors = 0;
   std::string first_error;
   uint64_t mallocs = 0, frees = 0;
+  bool fail_next = false;  // environment answer: the next request to the base allocator fails (returns null)
+  uint64_t fails = 0;
   void err(const std::string& e) {
     if (!errors) first_error = e;
     errors++;
@@ -56,6 +58,8 @@ struct BaseLedger {
     errors = 0;
     first_error.clear();
     mallocs = frees = 0;
+    fail_next = false;
+    fails = 0;
   }
 };
 static BaseLedger& BL() {
@@ -66,6 +70,11 @@ class TrackBase {
  public:
   void* Malloc(size_t size) {
     if (!size) return nullptr;
+    if (BL().fail_next) {
+      BL().fail_next = false;
+      BL().fails++;
+      return nullptr;
+    }
     char* p;
     if (size >= BaseLedger::kBigChunk) {
       p = (char*)mmap(nullptr, (size + 4095) & ~(size_t)4095, PROT_READ | PROT_WRITE, MAP_PRIVATE | MAP_ANONYMOUS | MAP_NORESERVE, -1, 0);
@@ -107,7 +116,7 @@ static const size_t kSizesHuge[12] = {0, 8, 64, 200, ((size_t)1 << 31) + 8, ((si
 static constexpr size_t kProbe = 4096;  // blocks larger than 2*kProbe are written / checked at both ends only
 static size_t al8(size_t x) { return (x + 7) & ~(size_t)7; }
 
-enum Cfg { HUGE_REQUESTS = 11, DEFAULT_BASE = 0, OWN_BASE = 1, USERBUF_EXACT = 2, USERBUF_8 = 3, USERBUF_64 = 4, USERBUF_MISALIGNED = 5, USERBUF_NOBASE = 6, USERBUF_ODD69 = 7, CHUNK_ODD100 = 8, USERBUF_MIS1 = 9, USERBUF_MIS3 = 10 };
+enum Cfg { FAILING_BASE = 12, HUGE_REQUESTS = 11, DEFAULT_BASE = 0, OWN_BASE = 1, USERBUF_EXACT = 2, USERBUF_8 = 3, USERBUF_64 = 4, USERBUF_MISALIGNED = 5, USERBUF_NOBASE = 6, USERBUF_ODD69 = 7, CHUNK_ODD100 = 8, USERBUF_MIS1 = 9, USERBUF_MIS3 = 10 };
 
 template <class Policy, int CFG>
 struct AllocSim {
@@ -142,7 +151,7 @@ struct AllocSim {
     std::memset(userbuf, 0xDD, sizeof userbuf);
     const size_t hdr = Pool::SIZEOF_SHARED_DATA + Pool::SIZEOF_CHUNK_HEADER;
     switch (CFG) {
-      case DEFAULT_BASE: case HUGE_REQUESTS: h[0] = new Pool(kChunk, &base); break;
+      case DEFAULT_BASE: case HUGE_REQUESTS: case FAILING_BASE: h[0] = new Pool(kChunk, &base); break;
       case OWN_BASE: h[0] = new Pool(kChunk); break;
       case USERBUF_EXACT: ub_begin = userbuf; ub_len = hdr; h[0] = new Pool(ub_begin, ub_len, kChunk, &base); break;
       case USERBUF_8: ub_begin = userbuf; ub_len = hdr + 8; h[0] = new Pool(ub_begin, ub_len, kChunk, &base); break;
@@ -162,7 +171,7 @@ struct AllocSim {
       if (h[i]) delete h[i];
   }
 
-  static unsigned menu_size() { return 90; }
+  static unsigned menu_size() { return CFG == FAILING_BASE ? 91 : 90; }
   static std::string op_name(unsigned op) {
     if (op < 12) return "Malloc(" + std::to_string(kSizes[op]) + ")";
     if (op < 24) return "Malloc(" + std::to_string(kSizes[op - 12]) + ")@copy";
@@ -175,6 +184,7 @@ struct AllocSim {
       case 87: return "MoveConstruct";
       case 88: return "DestroyLastHandle";
       case 89: return "SelfAssign(h0=h0)";
+      case 90: return "[the next request to the base allocator will fail]";
     }
     return "?";
   }
@@ -227,6 +237,7 @@ struct AllocSim {
       case 87: return free_slot() >= 0;
       case 88: return true;
       case 89: return hstate[0] == 1;
+      case 90: return CFG == FAILING_BASE && !BL().fail_next;
     }
     return false;
   }
@@ -313,13 +324,15 @@ struct AllocSim {
   }
 
   void do_malloc(Pool* a, size_t s, vr::Ctx& ctx, const std::string& tr) {
+    const uint64_t fails0 = BL().fails;
     char* p = (char*)a->Malloc(s);
     if (s == 0) {
       if (p) ctx.violation("zero_size", "alloc_zero_size", tr, "Malloc(0) returned non-null");
       return;
     }
     if (!p) {
-      ctx.violation("null_result", "alloc_null_result", tr, "Malloc(%zu) returned null", s);
+      // legitimate only when the base allocator refused a chunk during this very call; nothing was handed out
+      if (BL().fails == fails0) ctx.violation("null_result", "alloc_null_result", tr, "Malloc(%zu) returned null", s);
       return;
     }
     new_block(p, s, ctx, tr, "Malloc");
@@ -344,8 +357,11 @@ struct AllocSim {
       Blk old = blocks[bi];
       char* chunk_end = nullptr;
       bool tracked = in_some_chunk(old.p, al8(old.size), &chunk_end);
+      const uint64_t fails0 = BL().fails;
       char* p = (char*)h[fa]->Realloc(old.p, old.size, ns);
-      if (ns == 0) {
+      if (ns != 0 && !p && BL().fails != fails0) {
+        // the base allocator refused the new chunk: the caller keeps the old block, which stays as it was
+      } else if (ns == 0) {
         if (p) ctx.violation("zero_size", "alloc_zero_size", tr, "Realloc(p,%zu,0) returned non-null", old.size);
         // the old block is given up by the caller
         blocks[bi].live = false;
@@ -407,9 +423,12 @@ struct AllocSim {
       }
     } else if (op < 84) {
       size_t ns = kSizes[op - 72];
+      const uint64_t fails0 = BL().fails;
       char* p = (char*)h[fa]->Realloc(nullptr, 0, ns);
       if (ns == 0) {
         if (p) ctx.violation("zero_size", "alloc_zero_size", tr, "Realloc(null,0,0) returned non-null");
+      } else if (!p && BL().fails != fails0) {
+        // refused by the base allocator
       } else if (!p) {
         ctx.violation("null_result", "alloc_null_result", tr, "Realloc(null,0,%zu) returned null", ns);
       } else {
@@ -465,6 +484,8 @@ struct AllocSim {
     } else if (op == 89) {
       Pool& r = *h[0];
       *h[0] = r;
+    } else if (op == 90) {
+      BL().fail_next = true;
     }
     if (ub_begin) {
       // the user buffer must never be handed to the base allocator
@@ -485,7 +506,7 @@ struct AllocSim {
     int fa = first_alive();
     size_t lbytes = 0;
     for (auto& kv : BL().live) lbytes += kv.second;
-    snprintf(buf, sizeof buf, "H%d%d%d|led%zu/%zu|", hstate[0], hstate[1], hstate[2], BL().live.size(), lbytes);
+    snprintf(buf, sizeof buf, "H%d%d%d|led%zu/%zu%s|", hstate[0], hstate[1], hstate[2], BL().live.size(), lbytes, BL().fail_next ? "F" : "");
     k += buf;
     if (fa < 0) return k + "dead";
     // private state, for de-duplication only
@@ -572,6 +593,9 @@ int main(int argc, char** argv) {
   explore<AllocSim<AdaptiveChunkPolicy, CHUNK_ODD100>>(R, "A_adaptive_chunk100", d_side, extra, states, trans, args, rrc);
   explore<AllocSim<SimpleChunkPolicy, USERBUF_MIS1>>(R, "A_simple_userbuf_mis1", d_side, extra, states, trans, args, rrc);
   explore<AllocSim<SimpleChunkPolicy, USERBUF_MIS3>>(R, "A_simple_userbuf_mis3", d_side, extra, states, trans, args, rrc);
+  // the base allocator refuses a chunk at any point of the history; the pool must stay consistent and usable
+  explore<AllocSim<SimpleChunkPolicy, FAILING_BASE>>(R, "A_simple_failing_base", d_side, extra, states, trans, args, rrc);
+  explore<AllocSim<AdaptiveChunkPolicy, FAILING_BASE>>(R, "A_adaptive_failing_base", d_side, extra, states, trans, args, rrc);
   // requests of 2^31, 2^32 +- a few bytes, 2^33 (chunks are address space only)
   explore<AllocSim<SimpleChunkPolicy, HUGE_REQUESTS>>(R, "A_simple_huge", d_side, extra, states, trans, args, rrc);
   explore<AllocSim<AdaptiveChunkPolicy, HUGE_REQUESTS>>(R, "A_adaptive_huge", d_side, extra, states, trans, args, rrc);
